@@ -154,6 +154,10 @@ pub trait FK: Clone + 'static {
     fn state_from_(&mut self, o: &Self) {
         Clone::clone_from(self, o)
     }
+    /// (composite filters) the states of the INNER filters written in place, each through its own `state_mut`
+    fn state_from_nested_(&mut self, _o: &Self) -> bool {
+        false
+    }
     /// a new instance built from the configuration this one hands out: `with_config(self.config())` (kinds that have a
     /// configuration and the accessor)
     fn fresh_cfg_(&self) -> Option<Self> {
@@ -196,7 +200,9 @@ impl<K: FK> Inst for K {
     fn state_from_inst(&mut self, other: &dyn Inst) -> bool {
         match other.as_any().downcast_ref::<K>() {
             Some(o) => {
-                self.state_from_(o);
+                if !self.state_from_nested_(o) {
+                    self.state_from_(o);
+                }
                 true
             }
             None => false,
@@ -296,6 +302,7 @@ macro_rules! median_fk {
 median_fk!(Q);
 median_fk!(f64);
 median_fk!(Fz);
+#[cfg(feature = "order_only")]
 median_fk!(Bl);
 
 macro_rules! mean_fk {
@@ -436,6 +443,9 @@ macro_rules! diffint_fk {
 }
 diffint_fk!(Q);
 diffint_fk!(f64);
+diffint_fk!(u8);
+diffint_fk!(i8);
+diffint_fk!(i64);
 
 impl IO for Kalman<Q> {
     type In = Q;
@@ -524,12 +534,40 @@ fk!([] Emv<Q>, Q => signalo_filters::mean::exp::mean_variance::Output<Q> {
 
 // the wavelet filters over exact rationals with ANY pair of kernels (C07: "for generic kernels, all sample values")
 fk!([const N: usize] Analyze<Q, N>, Q => Decomposition<Q> {
+    fn state_from_nested_(&mut self, o: &Self) -> bool {
+        // the two inner convolutions' states written in place, each through its own `state_mut`
+        let mut src = o.clone();
+        let (lp, hp) = unsafe {
+            let s = StateMut::state_mut(&mut src);
+            (StateMut::state_mut(&mut s.low_pass).clone(), StateMut::state_mut(&mut s.high_pass).clone())
+        };
+        unsafe {
+            let d = StateMut::state_mut(self);
+            *StateMut::state_mut(&mut d.low_pass) = lp;
+            *StateMut::state_mut(&mut d.high_pass) = hp;
+        }
+        true
+    }
     fn cfg_(&mut self) -> String {
         let c = self.config();
         format!("{} | {}", render_list(c.low_pass.coefficients.iter()), render_list(c.high_pass.coefficients.iter()))
     }
 });
 fk!([const N: usize] Synthesize<Q, N>, Decomposition<Q> => Q {
+    fn state_from_nested_(&mut self, o: &Self) -> bool {
+        // the two inner convolutions' states written in place, each through its own `state_mut`
+        let mut src = o.clone();
+        let (lp, hp) = unsafe {
+            let s = StateMut::state_mut(&mut src);
+            (StateMut::state_mut(&mut s.low_pass).clone(), StateMut::state_mut(&mut s.high_pass).clone())
+        };
+        unsafe {
+            let d = StateMut::state_mut(self);
+            *StateMut::state_mut(&mut d.low_pass) = lp;
+            *StateMut::state_mut(&mut d.high_pass) = hp;
+        }
+        true
+    }
     fn cfg_(&mut self) -> String {
         let c = self.config();
         format!("{} | {}", render_list(c.low_pass.coefficients.iter()), render_list(c.high_pass.coefficients.iter()))
@@ -584,7 +622,10 @@ macro_rules! classify_fk {
 }
 classify_fk!(Q);
 classify_fk!(f64);
+#[cfg(feature = "order_only")]
 classify_fk!(Sn);
+classify_fk!(u8);
+classify_fk!(i8);
 
 fk!([] Debounce<Q, Q>, Q => Q {
     fn guts_(&mut self, field: &str) -> String {
@@ -690,6 +731,11 @@ macro_rules! fk_bits {
             }
             fn poke_(&mut self) {
                 let _ = unsafe { StateMut::state_mut(self) };
+            }
+            fn state_from_(&mut self, o: &Self) {
+                let mut src = o.clone();
+                let st = unsafe { StateMut::state_mut(&mut src) }.clone();
+                unsafe { *StateMut::state_mut(self) = st; }
             }
             fn cfg_(&mut self) -> String {
                 let $s = &*self;
@@ -964,6 +1010,7 @@ fn build_inner(kind: &str, kv: &KV, wrap: Option<&str>) -> Box<dyn Inst> {
         ("min", "fz") => with_n!(kv_n(kv, "N"), N => finish(Min::<Fz, N>::default(), wrap)),
         ("bounds", "fz") => with_n!(kv_n(kv, "N"), N => finish(Bounds::<Fz, N>::default(), wrap)),
         ("delay", "fz") => with_n!(kv_n(kv, "N"), N => finish(Delay::<Fz, N>::default(), wrap)),
+        #[cfg(feature = "order_only")]
         ("median", "bl") => with_n!(kv_n(kv, "N"), N => finish(Median::<Bl, N>::default(), wrap)),
         ("median", "fz") => with_n!(kv_n(kv, "N"), N => finish(Median::<Fz, N>::default(), wrap)),
         ("mean", "q") => with_n!(kv_n(kv, "N"), N => finish_q(Mean::<Q, N>::default(), wrap)),
@@ -1036,6 +1083,12 @@ fn build_inner(kind: &str, kv: &KV, wrap: Option<&str>) -> Box<dyn Inst> {
             })
         }
         ("meanvar", _) => with_n!(kv_n(kv, "N"), N => finish_ne(MeanVariance::<Q, N>::default(), wrap)),
+        ("integrate", "u8") => finish(Integrate::<u8>::default(), wrap),
+        ("integrate", "i8") => finish(Integrate::<i8>::default(), wrap),
+        ("integrate", "i64") => finish(Integrate::<i64>::default(), wrap),
+        ("differentiate", "u8") => finish(Differentiate::<u8>::default(), wrap),
+        ("differentiate", "i8") => finish(Differentiate::<i8>::default(), wrap),
+        ("differentiate", "i64") => finish(Differentiate::<i64>::default(), wrap),
         ("differentiate", "f64") => finish(Differentiate::<f64>::default(), wrap),
         ("integrate", "f64") => finish(Integrate::<f64>::default(), wrap),
         ("differentiate", _) => finish_q(Differentiate::<Q>::default(), wrap),
@@ -1102,7 +1155,13 @@ fn build_inner(kind: &str, kv: &KV, wrap: Option<&str>) -> Box<dyn Inst> {
         ),
         ("slopes", "q") => finish_q(Slopes::<Q, Q>::with_config(SlopesConfig { outputs: out3(kv) }), wrap),
         ("slopes", "f64") => finish(Slopes::<f64, Q>::with_config(SlopesConfig { outputs: out3(kv) }), wrap),
+        ("slopes", "u8") => finish(Slopes::<u8, Q>::with_config(SlopesConfig { outputs: out3(kv) }), wrap),
+        ("peaks", "u8") => finish(Peaks::<u8, Q>::with_config(PeaksConfig { outputs: out3(kv) }), wrap),
+        ("slopes", "i8") => finish(Slopes::<i8, Q>::with_config(SlopesConfig { outputs: out3(kv) }), wrap),
+        ("peaks", "i8") => finish(Peaks::<i8, Q>::with_config(PeaksConfig { outputs: out3(kv) }), wrap),
+        #[cfg(feature = "order_only")]
         ("slopes", "sn") => finish(Slopes::<Sn, Q>::with_config(SlopesConfig { outputs: out3(kv) }), wrap),
+        #[cfg(feature = "order_only")]
         ("peaks", "sn") => finish(Peaks::<Sn, Q>::with_config(PeaksConfig { outputs: out3(kv) }), wrap),
         ("peaks", "q") => finish_q(Peaks::<Q, Q>::with_config(PeaksConfig { outputs: out3(kv) }), wrap),
         ("peaks", "f64") => finish(Peaks::<f64, Q>::with_config(PeaksConfig { outputs: out3(kv) }), wrap),
